@@ -27,6 +27,10 @@ POLICY = ["NoClientCert", "RequestClientCert", "RequireAnyClientCert", "VerifyCl
           "RequireAndVerifyClientCert"]
 
 SITE_F6 = "internal/handshake/protected_flight.go processFinished"
+SITE_F45 = "internal/handshakecrypto/crypto.go verifyCertificateSignature"
+SITE_F46 = ("internal/flight/flight12/flight4handler.go flight4Parse (SetSession before the Finished check and the "
+            "client-auth policy)")
+MON = "established although the peer lacks the required credential"
 SITE_12C = "internal/flight/flight12/flight5handler.go initializeCipherSuite / flight3handler.go flight3Parse"
 SITE_12S = "internal/flight/flight12/flight4handler.go flight4Parse"
 
@@ -45,6 +49,9 @@ def lacking(s):
     r, t = s["rogue"], s["tamper"]
     if s["vc"] == "reject":
         return "VerifyConnection rejects"
+    if r == "scheme_confusion":
+        return ("signature not by the leaf key: the peer holds no private key of the %s certificate it presents, claims a "
+                "%s scheme and sends a signature computed from the public key for the empty digest" % (s["key"], s["claim"]))
     if s["honest"] == "client":
         if s["suite"] != "cert":
             return "wrong PSK" if r == "wrong_psk" else None
@@ -106,39 +113,78 @@ def case_term(o):
     has_vpc, vpc_ok = s["vpc"] != "", s["vpc"] != "reject"
     has_vc, vc_ok = s["vc"] != "", s["vc"] != "reject"
     psk = s["suite"] != "cert"
+    conf = r == "scheme_confusion"
+    # scheme confusion: the routine of the certificate's KEY TYPE runs on the digest of the CLAIMED hash; only an
+    # ECDSA key with the digest-less Ed25519 scheme accepts the forgery.  fits = claimed family == key family.
+    routine_ok = (s.get("key") == "ecdsa" and s.get("claim") == "ed25519") if conf else r not in SIG_BAD
+    fits = (s.get("key") == s.get("claim")) if conf else True
+    by_leaf = False if conf else r not in SIG_BAD
+    # DTLS 1.3 picks an RSA-PSS scheme for an RSA-typed signer: validateSignatureAlgOID refuses it for other keys
+    oid_ok = not (conf and s["claim"] == "rsa" and s["key"] != "rsa")
     if s["ver"] == 12 and s["honest"] == "client":
         cfg = "(mk_ccfg %s %s %s %s)" % (cbool(s["skip"]), cbool(has_vpc), cbool(has_vc), cbool(psk))
         v = [SUITE[s["suite"]],
              cbool(not psk), cbool(not psk), cbool(not psk),   # Certificate message, non-empty, parses
              "true",                                          # ServerKeyExchange (PSK variants carry an identity hint)
-             cbool(r != "bad_scheme"), cbool(r not in SIG_BAD),
+             cbool(r != "bad_scheme"), cbool(routine_ok),
              cbool(r not in SRV_CHAIN_BAD), cbool(r not in SRV_NAME_BAD), cbool(r != "expired"), "true",
              cbool(vpc_ok), cbool(vc_ok),
-             cbool(r != "wrong_psk"), "true"]
+             cbool(r != "wrong_psk"), "true", cbool(fits), cbool(by_leaf)]
         return "(CClient12 %s (mk_sview %s) %s)" % (cfg, " ".join(v), ob)
     if s["ver"] == 12:
         given = client_given(s)
         cfg = "(mk_scfg %s %s %s)" % (POLICY[s["policy"]], cbool(has_vpc), cbool(has_vc))
+        cert_msg = s["policy"] > 0 and s["suite"] == "cert"   # the stock client answers a request even with an empty list
         v = [SUITE[s["suite"]], "true", cbool(given), "true", cbool(given),
-             cbool(r != "bad_scheme"), cbool(r not in SIG_BAD), cbool(r not in CLI_CHAIN_BAD),
-             cbool(vpc_ok), cbool(vc_ok), cbool(r != "wrong_psk"), "true"]
+             cbool(r != "bad_scheme"), cbool(routine_ok), cbool(r not in CLI_CHAIN_BAD),
+             cbool(vpc_ok), cbool(vc_ok), cbool(r != "wrong_psk"), "true",
+             cbool(cert_msg), cbool(fits), cbool(by_leaf)]
         return "(CServer12 %s (mk_cview %s) %s)" % (cfg, " ".join(v), ob)
     cfg = "(mk_cfg13 %s %s %s %s)" % (cbool(s["skip"]), POLICY[s["policy"]], cbool(has_vpc), cbool(has_vc))
     if s["honest"] == "client":
         v = ["false", cbool(t != "no_cert_cv"), cbool(t != "empty_cert"), "true", cbool(t == ""),
-             "true", cbool(r not in SIG_BAD),
+             "true", cbool(routine_ok),
              cbool(r not in SRV_CHAIN_BAD and r not in SRV_NAME_BAD and r != "expired"),
-             cbool(vpc_ok), cbool(vc_ok), "true"]
+             cbool(vpc_ok), cbool(vc_ok), "true", cbool(oid_ok), cbool(fits), cbool(by_leaf)]
     else:
         requested = s["policy"] > 0
         v = ["true", cbool(requested and t != "no_cert_cv"), cbool(r != "no_cert" and t != "empty_cert"), "true",
              cbool(requested and r != "no_cert" and t == ""),
-             "true", cbool(r not in SIG_BAD), cbool(r not in CLI_CHAIN_BAD),
-             cbool(vpc_ok), cbool(vc_ok), "true"]
+             "true", cbool(routine_ok), cbool(r not in CLI_CHAIN_BAD),
+             cbool(vpc_ok), cbool(vc_ok), "true", cbool(oid_ok), cbool(fits), cbool(by_leaf)]
     return "(CFlight13 %s (mk_pview %s) %s)" % (cfg, " ".join(v), ob)
 
 
+# ----------------------------------------------------------------- two connections: refused client resumes
+
+def resume_lacking(c):
+    if c["policy"] in (2, 4):
+        return "policy requires a client certificate, the client never presented one in either connection"
+    return None
+
+
+def resume_term(c):
+    cls = c["s2res"]
+    if cls == "ok":
+        ob = "OOk"
+    elif cls == "hang":
+        ob = "OHang"
+    elif cls == "local":
+        ob = "(ORej %d)" % (c["s2alert"] if c["s2alert"] >= 0 else 255)
+    else:
+        return None
+
+    def view(fin_arrives):
+        # certificate-less client: ClientKeyExchange only; Finished correct whenever it is sent
+        return "(mk_cview %s true false false false false false false true true %s true false false false)" % (
+            SUITE[c["suite"]], cbool(fin_arrives))
+    return "(CSecond12 (mk_scfg %s false false) true %s %s true true %s)" % (
+        POLICY[c["policy"]], view(c["fin"]), view(True), ob)
+
+
 def site_of(s):
+    if s["rogue"] == "scheme_confusion":
+        return SITE_F45
     if s["ver"] == 13:
         return SITE_F6
     return SITE_12C if s["honest"] == "client" else SITE_12S
@@ -223,11 +269,13 @@ def run(chk):
     proved = chk.prove(["theories/Hs/C03Run.vo"])
     out = vlib.out_path("c03")
     out_t = vlib.out_path("c03t")
-    env = {"VERIF_SEED": chk.seed, "VERIF_TIER": chk.tier, "VERIF_OUT": out, "VERIF_OUT_TAMPER": out_t}
+    out_r = vlib.out_path("c03r")
+    env = {"VERIF_SEED": chk.seed, "VERIF_TIER": chk.tier, "VERIF_OUT": out, "VERIF_OUT_TAMPER": out_t,
+           "VERIF_OUT_RESUME": out_r}
     ov, scratch, why = tamper_overlay(["c03", "c03t"])
     tamper_ran = False
     if ov is not None:
-        rc, o = go_test_overlay(ov, "^TestVerifC03(Tamper)?$", env)
+        rc, o = go_test_overlay(ov, "^TestVerifC03(Tamper|Resume)?$", env)
         shutil.rmtree(scratch, ignore_errors=True)
         tamper_ran = True
         if rc != 0 and vlib.classify_go_failure(o) == "build":
@@ -235,10 +283,12 @@ def run(chk):
             tamper_ran = False
     if not tamper_ran:
         chk.broken("DTLS 1.3 rogue-flight correspondence (tamper hook) is not checking", why or "")
-        rc, o = vlib.go_test(".", "^TestVerifC03$", env, tags=["c03"])
+        rc, o = vlib.go_test(".", "^TestVerifC03(Resume)?$", env, tags=["c03"])
     cases = vlib.read_jsonl(out) + (vlib.read_jsonl(out_t) if tamper_ran else [])
+    rcases = vlib.read_jsonl(out_r)
     vlib.cleanup(out)
     vlib.cleanup(out_t)
+    vlib.cleanup(out_r)
     found = False
     if rc != 0:
         kind = vlib.classify_go_failure(o)
@@ -251,6 +301,8 @@ def run(chk):
     # ---- the property's own monitor on the implementation trace
     reported = set()
     n_lacking = 0
+    confused = [c for c in cases if c["scn"]["rogue"] == "scheme_confusion"
+                and (c["cres"] if c["scn"]["honest"] == "client" else c["sres"]) == "ok"]
     for c in cases:
         s = c["scn"]
         why_l = lacking(s)
@@ -270,11 +322,20 @@ def run(chk):
             found = True
             sig = {"monitor": bad.split(":")[0], "ver": s["ver"], "suite": s["suite"], "honest": s["honest"],
                    "rogue": s["rogue"], "tamper": s["tamper"]}
+            extra = ""
+            if s["rogue"] == "scheme_confusion":
+                sig = {"monitor": bad.split(":")[0], "deviation": "signature-scheme-confusion"}
+                msgs = sorted({"DTLS 1.%d %s" % (k["scn"]["ver"] - 10, (
+                    "ServerKeyExchange" if k["scn"]["ver"] == 12 and k["scn"]["honest"] == "client" else
+                    "CertificateVerify of the %s" % ("server" if k["scn"]["honest"] == "client" else "client")))
+                    for k in confused})
+                extra = "; accepted in: %s (%d scenarios: %s)" % (", ".join(msgs), len(confused),
+                                                                 " ".join(sorted(k["scn"]["id"] for k in confused)))
             key = json.dumps(sig, sort_keys=True)
             if key in reported:
                 continue
             reported.add(key)
-            chk.finding(site_of(s), sig, "%s [%s]" % (bad, s["id"]),
+            chk.finding(site_of(s), sig, "%s [%s]%s" % (bad, s["id"], extra),
                         {"how": "TestVerifC03%s scenario `scn`: honest=%s side vs. a real pion endpoint configured as `rogue`"
                                 "%s; cres/sres = HandshakeContext result class of client/server; honest_reads = payloads Read "
                                 "by the honest side after the rogue wrote" % (
@@ -284,6 +345,7 @@ def run(chk):
 
     # ---- model / implementation comparison inside Coq
     ok_model, mo = vlib.coq_make(["theories/Hs/C03Run.vo"])
+    ok_model = bool(ok_model)
     if not ok_model:
         chk.broken("model Hs/C03Run.v no longer compiles", mo)
     elif cases:
@@ -324,6 +386,73 @@ def run(chk):
                 d = sorted(py ^ cq)[0]
                 chk.broken("property monitor in Coq (c03_required) and in the driver (lacking) disagree", json.dumps(cases[d]))
 
+    # ---- two connections: a refused (or never finished) client comes back through session resumption
+    if not rcases:
+        chk.broken("two-connection leg TestVerifC03Resume produced no observations", o[-2000:])
+    for c in rcases:
+        why_l = resume_lacking(c)
+        if not c["learned"]:
+            chk.broken("refused-resume scenario %s: the client did not learn session id / master secret" % c["id"], json.dumps(c))
+        bad = None
+        if why_l and c["s2res"] == "ok":
+            bad = MON + ": " + why_l + " (second connection%s)" % (", abbreviated handshake" if c["resumed"] else "")
+        elif why_l and c["s1res"] == "ok":
+            bad = MON + ": " + why_l + " (first connection)"
+        elif c["s2res"] != "ok" and c["sreads"] > 0:
+            bad = "application data delivered by an endpoint whose handshake did not succeed"
+        if bad:
+            found = True
+            sig = {"monitor": bad.split(":")[0], "deviation": "refused-client-resumes"}
+            key = json.dumps(sig, sort_keys=True)
+            if key in reported:
+                continue
+            reported.add(key)
+            allbad = sorted(k["id"] for k in rcases if resume_lacking(k) and k["s2res"] == "ok")
+            chk.finding(SITE_F46, sig, "%s [%s]; all such scenarios: %s" % (bad, c["id"], " ".join(allbad)),
+                        {"how": "TestVerifC03Resume: server with a session store and ClientAuth=`policy`; connection 1: a client "
+                                "without certificate leaves the Certificate message out (suite cert; a PSK server sends no "
+                                "CertificateRequest) and %s; connection 2: it offers the session id of the ServerHello of "
+                                "connection 1 with the master secret it derived itself (client store entry "
+                                "'server_server.verif'). s2res = HandshakeContext result class of the server in connection 2, "
+                                "resumed = no ServerHelloDone seen, peer_certs = len(State.PeerCertificates), sreads = payloads "
+                                "the server Read from that client" % (
+                                    "sends a correct Finished (is refused with a fatal alert)" if c["fin"] else
+                                    "stops after ClientKeyExchange (ChangeCipherSpec and Finished are never delivered)"),
+                         "case": c, "rerun": "VERIF_SEED=%d bin/check C03 --tier %s" % (chk.seed, chk.tier)})
+    if ok_model and rcases:
+        rterms, ridx = [], []
+        for i, c in enumerate(rcases):
+            t = resume_term(c)
+            if t is None:
+                chk.broken("refused-resume scenario %s: nothing observed about the server" % c["id"], json.dumps(c))
+            else:
+                rterms.append(t)
+                ridx.append(i)
+        bad, err = vlib.coq_mismatches("c03r", IMPORTS, "c03_case", "c03_ok", rterms, shard=300)
+        if bad is None:
+            chk.broken("correspondence evaluation (two connections) failed in coqc", err)
+        else:
+            for j in bad[:2]:
+                c = rcases[ridx[j]]
+                viol = resume_lacking(c) is not None and c["s2res"] == "ok"
+                chk.finding(SITE_F46, {"monitor": "model-mismatch", "id": c["id"]},
+                            "second-connection verdict differs from Hs/C03Auth.v server12_second [%s]: observed %s alert %d, "
+                            "resumed=%s" % (c["id"], c["s2res"], c["s2alert"], c["resumed"]),
+                            {"case": c, "term": rterms[j], "correspondence": "Hs.C03Run.c03_ok"},
+                            no_input=not (viol or found))
+        bad2, err2 = vlib.coq_mismatches("c03rm", IMPORTS, "c03_case", "c03_not_violating", rterms, shard=300)
+        if bad2 is None:
+            chk.broken("monitor evaluation (two connections) failed in coqc", err2)
+        else:
+            py = {i for i, c in enumerate(rcases) if resume_lacking(c) and c["s2res"] == "ok"}
+            if py != {ridx[j] for j in bad2}:
+                chk.broken("property monitor in Coq and in the driver disagree on the two-connection leg",
+                           json.dumps(rcases[sorted(py ^ {ridx[j] for j in bad2})[0]]))
+    chk.count("refused-resume", len(rcases), [c["id"] for c in rcases if resume_lacking(c)],
+              samples=[{"id": c["id"], "s1res": c["s1res"], "stored": c["stored"], "s2res": c["s2res"],
+                        "resumed": c["resumed"]} for c in rcases if resume_lacking(c)][:2])
+    chk.leg_info("refused-resume", stored_after_first={c["id"]: c["stored"] for c in rcases if resume_lacking(c)})
+
     nontriv = [c for c in cases if lacking(c["scn"])]
     chk.count("rogue-config", len([c for c in cases if not c["scn"]["tamper"]]),
               [c["scn"]["id"] for c in nontriv if not c["scn"]["tamper"]],
@@ -349,7 +478,11 @@ def run(chk):
         level="proof",
         rule="every scenario = (DTLS version, suite class, honest side, deviation of the peer, ClientAuth value, "
              "InsecureSkipVerify, VerifyPeerCertificate none/ok/reject, VerifyConnection none/ok/reject[, 1.3 flight tamper]); "
-             "full cross product for certificate suites, PSK and ECDHE-PSK with right/wrong key. Non-trivial = the peer lacks "
+             "full cross product for certificate suites, PSK and ECDHE-PSK with right/wrong key; scheme confusion: key type of "
+             "the presented certificate {ecdsa, rsa, ed25519} x claimed scheme family {ed25519, ecdsa, rsa} x message "
+             "(ServerKeyExchange, CertificateVerify 1.2, CertificateVerify 1.3 of either side) x policy / InsecureSkipVerify, "
+             "signature forged for the empty digest from the public key; refused-resume: two connections, {cert, PSK} x 5 "
+             "policies x Finished sent / withheld in the first x EMS on / off. Non-trivial = the peer lacks "
              "the credential the honest side's policy requires; distinct by scenario id.",
         assumptions=["views are abstract: x509 path validation (Go crypto/x509), signature schemes and AEAD are not modelled; "
                      "a view field is the truth value of one such primitive check on the received flight",
